@@ -72,6 +72,9 @@ class syntax_error(SourceFeedback):
     def __init__(self, line, filename, code, col_offset,
                  exception, exc_info, enhance=True, **kwargs):
         report = kwargs.get('report', MAIN_REPORT)
+        if line is None:
+            # CPython gives no position for some errors (e.g., null bytes in the source)
+            line = 1
         files = report.submission.get_files_lines()
         if filename not in files:
             files[filename] = code.split("\n")
